@@ -134,6 +134,7 @@ type violationRec struct {
 	What   string      `json:"what"`
 	Replay interface{} `json:"replay"`
 	Count  int         `json:"count"`
+	Size   int         `json:"size"` // length of the failing input: the smallest one is reported
 }
 
 type unitResult struct {
@@ -228,12 +229,15 @@ func (x *executor) checkpoint() {
 	x.fresh()
 }
 
-func (x *executor) violation(key, what string, replay interface{}) {
+func (x *executor) violation(key, what string, replay interface{}, size int) {
 	if v, ok := x.vidx[key]; ok {
 		v.Count++
+		if size < v.Size {
+			v.What, v.Replay, v.Size = what, replay, size
+		}
 		return
 	}
-	v := &violationRec{Key: key, What: what, Replay: replay, Count: 1}
+	v := &violationRec{Key: key, What: what, Replay: replay, Count: 1, Size: size}
 	x.vidx[key] = v
 	x.res.Violations = append(x.res.Violations, v)
 }
